@@ -2,7 +2,7 @@
   Spec.Wire — declarative well-formedness of names (and, below, records and packets).
   Written independently of the model's control flow.
 -/
-import DnsModel.Name
+import DnsModel.Sector
 namespace Dns
 
 
@@ -40,5 +40,59 @@ theorem ptrTarget_eq (hi lo : Nat) (_h1 : hi < 256) (h2 : lo < 256) :
   unfold ptrTarget
   have e1 : hi &&& 0x3f = hi % 64 := Nat.and_two_pow_sub_one_eq_mod hi 6
   rw [e1, ← Nat.shiftLeft_add_eq_or_of_lt (by omega : lo < 2 ^ 8), Nat.shiftLeft_eq]
+
+/-! ### records, sections, packets -/
+
+/-- a pointer-free name with arbitrary label bytes (DNAME targets): labels of 1–63 bytes inside the
+packet, a root byte, at most 255 bytes in all; `e` is the position after the root -/
+def PlainName (p : Bytes) (off e : Nat) : Prop :=
+  ∃ ls stop, Labels p p.length off ls stop ∧ stop < p.length ∧ byteAt p stop = some 0 ∧ e = stop + 1 ∧
+    wireLen ls ≤ 255
+
+/-- EDNS options tile `[a, b)` exactly: each is a 4-byte header (code, length) followed by `length` bytes -/
+inductive OptionsTile (p : Bytes) : Nat → Nat → Nat → Prop
+  | done (a : Nat) : OptionsTile p a a 0
+  | opt {a b n : Nat} : a + 4 + get16 p (a + 2) ≤ b → OptionsTile p (a + 4 + get16 p (a + 2)) b n →
+      OptionsTile p a b (n + 1)
+
+/-- a name of the policy at `off` that ends at `e` -/
+def NameEnds (p : Bytes) (off e : Nat) : Prop := ∃ ls, ValidName p off ls e
+
+/-- the type-specific shape of the data `[rs, rs + l)` of a record of type `t ≠ OPT` -/
+def RDataOK (p : Bytes) (t l rs : Nat) : Prop :=
+  if t = 2 ∨ t = 5 ∨ t = 12 then l ≠ 0 ∧ NameEnds p rs (rs + l)
+  else if t = 15 then 2 < l ∧ NameEnds p (rs + 2) (rs + l)
+  else if t = 6 then 21 < l ∧ ∃ e1 e2, NameEnds p rs e1 ∧ NameEnds p e1 e2 ∧ e2 + 20 = rs + l
+  else if t = 39 then l ≠ 0 ∧ PlainName p rs (rs + l)
+  else if t = 1 then l = 4
+  else if t = 28 then l = 16
+  else True
+
+/-- one record of section `sec` at `off`, ending at `next`; `ob`/`oa`: an OPT record was seen before / after -/
+def RRAt (p : Bytes) (sec : Section) (off : Nat) (ob : Bool) (next : Nat) (oa : Bool) : Prop :=
+  ∃ ne, NameEnds p off ne ∧ ne + 10 ≤ p.length ∧
+    let t := get16 p ne
+    let l := get16 p (ne + 8)
+    next = ne + 10 + l ∧ next ≤ p.length ∧
+    if t = 41 then
+      sec = .additional ∧ ne = off + 1 ∧ ob = false ∧ oa = true ∧ ∃ n, OptionsTile p (ne + 10) next n
+    else RDataOK p t l (ne + 10) ∧ oa = ob
+
+/-- `n` consecutive records -/
+inductive RRs (p : Bytes) (sec : Section) : Nat → Nat → Bool → Nat → Bool → Prop
+  | nil (off : Nat) (o : Bool) : RRs p sec 0 off o off o
+  | cons {n off mid e : Nat} {ob om oe : Bool} : RRAt p sec off ob mid om → RRs p sec n mid om e oe →
+      RRs p sec (n + 1) off ob e oe
+
+/-- **the acceptance policy of the parser**, stated on the bytes: a 12-byte header, exactly one
+question of class IN, answer/authority records only in responses, every announced record well-formed
+and inside the packet, at most one OPT (root-named, in the additional section, options tiling its
+data), nothing left over. -/
+def WF (p : Bytes) : Prop :=
+  12 ≤ p.length ∧ get16 p 4 = 1 ∧
+  ∃ qe, NameEnds p 12 qe ∧ qe + 4 ≤ p.length ∧ get16 p (qe + 2) = 1 ∧
+    ((get16 p 2) / 32768 % 2 = 0 → get16 p 6 = 0 ∧ get16 p 8 = 0) ∧
+    ∃ e2 o2 e3 o3 o4, RRs p .answer (get16 p 6) (qe + 4) false e2 o2 ∧
+      RRs p .nameServers (get16 p 8) e2 o2 e3 o3 ∧ RRs p .additional (get16 p 10) e3 o3 p.length o4
 
 end Dns
